@@ -1402,6 +1402,72 @@ def _raw_append_reached(ch, stmts: list[ast.stmt], T: str, tok: str) -> bool:
     return False
 
 
+# ======================================================================================= receipts are JSON-safe
+_SCALAR_TYPES = {"str", "int", "float", "bool", "str | None", "int | None", "str | int", "int | float", "(str, int)", "(int, float)", "(str, int, float, bool)"}
+
+
+def check_receipt_records(run: Run) -> None:
+    """warning / repair records travel verbatim into the tools' JSON envelopes"""
+    run.rule("R20.5e", "receipt records are JSON-safe: in every record the lexer / parser appends to its warnings / repairs list, a value that is document content of unknown kind - a parameter annotated Any (or not annotated), or what parse_value() / a node constructor returned - is put in only where isinstance(<it>, str | int | float | bool) holds, or converted with str()/repr()/an f-string; an AST value object in a receipt makes json.dumps of the tool's envelope raise TypeError", 20)
+    from ..cfg import atomic_conditions
+
+    n = 0
+    for mn in ("core.parser", "core.lexer"):
+        m = run.project.mod(mn)
+        for q, fi in m.functions.items():
+            cfg = None
+            for c in walk_no_nested(fi.node):
+                if not (isinstance(c, ast.Call) and isinstance(c.func, ast.Attribute) and c.func.attr == "append" and ast.unparse(c.func.value) in ("self.warnings", "repairs", "warnings") and c.args and isinstance(c.args[0], ast.Dict)):
+                    continue
+                cfg = cfg or CFG(fi.node)
+                holder = next((nd.id for nd in cfg.nodes if nd.kind == "stmt" and isinstance(nd.ast, ast.Expr) and nd.ast.value is c), None)
+                conds = atomic_conditions(cfg, holder) if holder is not None else []
+
+                def string_led() -> bool:
+                    # a flag bound from `<token>.type == TokenType.STRING` taken before the value was read holds: a value
+                    # that starts with a STRING token is read as text (parse_value coalesces STRING-led runs into one string)
+                    for t, val in conds:
+                        if val and isinstance(t, ast.Name):
+                            ds = [x.value for x in walk_no_nested(fi.node) if isinstance(x, ast.Assign) and any(is_name(tg, t.id) for tg in x.targets)]
+                            if ds and all(isinstance(d, ast.Compare) and len(d.ops) == 1 and isinstance(d.ops[0], ast.Eq) and ast.unparse(d.comparators[0]).endswith("TokenType.STRING") and ast.unparse(d.left).endswith(".type") for d in ds):
+                                return True
+                    return False
+
+                def guarded(name: str) -> bool:
+                    if string_led():
+                        return True
+                    return any(val and isinstance(t, ast.Call) and isinstance(t.func, ast.Name) and t.func.id == "isinstance" and len(t.args) == 2 and is_name(t.args[0], name) and ast.unparse(t.args[1]) in _SCALAR_TYPES for t, val in conds)
+
+                def unknown_kind(e: ast.AST, depth: int = 0) -> str | None:
+                    """why the expression may be an AST value object; None when it is not recognised as one"""
+                    if isinstance(e, ast.Call) and isinstance(e.func, ast.Attribute) and isinstance(e.func.value, ast.Name) and e.func.value.id == "self" and e.func.attr in ("parse_value", "parse_list", "parse_list_item", "parse_flow_expression", "parse_literal_zone"):
+                        return f"the result of self.{e.func.attr}()"
+                    if isinstance(e, ast.Call) and isinstance(e.func, ast.Name) and e.func.id in ("ListValue", "InlineMap", "HolographicValue", "LiteralZoneValue", "Assignment", "Block", "Section"):
+                        return f"a {e.func.id} object"
+                    if isinstance(e, ast.Name) and depth < 3:
+                        if guarded(e.id):
+                            return None
+                        for a in list(fi.node.args.args) + list(fi.node.args.kwonlyargs):  # type: ignore[attr-defined]
+                            if a.arg == e.id and a.arg not in ("self", "cls"):
+                                ann = ast.unparse(a.annotation) if a.annotation is not None else None
+                                return f"the parameter `{e.id}: {ann or '<not annotated>'}`" if ann in (None, "Any", "object", "ASTNode", "Any | None") else None
+                        defs = [x.value for x in walk_no_nested(fi.node) if isinstance(x, ast.Assign) and any(is_name(t, e.id) for t in x.targets)]
+                        for d in defs:
+                            w = unknown_kind(d, depth + 1)
+                            if w:
+                                return w
+                    return None
+
+                for k, v in zip(c.args[0].keys, c.args[0].values):
+                    n += 1
+                    why = unknown_kind(v)
+                    run.instance("R20.5e", m.loc(c), f"{q}: record field {ast.unparse(k) if k is not None else '**'} = `{norm(v)[:50]}`", ok=why is None, nontrivial=isinstance(v, ast.Name))
+                    if why:
+                        run.violation("R20.5e", m, q, v, f"the receipt field {ast.unparse(k) if k is not None else '**'} holds `{norm(v)[:60]}`, which is {why} and not known to be a scalar here: for a structured value (a list, an inline map) the record carries an AST object into octave_validate.repairs / octave_write.corrections and json.dumps of the envelope raises TypeError")
+    if n == 0:
+        raise AnalysisError("no warning / repair record found in lexer or parser")
+
+
 # ======================================================================================= complexity
 def check_complexity(run: Run) -> None:
     run.rule("R20.6", "inside tokenize's main loop (one cycle per token) no statement does work proportional to the whole input or to everything produced so far: no loop over the growing `tokens`/`repairs` lists, no open-ended slice `content[k:]` / whole-input method call, except on paths that end in a raise", 1)
@@ -1633,6 +1699,7 @@ def check(run: Run) -> None:
     check_escape(run, res)
     check_meta_types(run, res)
     check_joined_token_values(run, tt)
+    check_receipt_records(run)
     check_complexity(run)
     check_bounds(run)
     run.assume("IndexError/KeyError/AttributeError/TypeError of ordinary subscripts and attribute access are modelled only where a rule names them (R20.5c META values, R20.8 scanner indexes); JSON-serialisability of envelope values and measured running time are not decided")
